@@ -48,8 +48,8 @@ def const_rules(facts, rep):
         ga = " ".join(pb[0][1].get("gargs") or [])
         a = [norm(ex.operand(x, (pb[0][0], None))) for x in pb[0][1]["args"]]
         good = "hmac::Hmac<sha1::" in ga.replace("Sha1Core", "") or ("Hmac" in ga and "Sha1" in ga)
-        good = good and a[0] == ("arg", 2, "password") and "salt_length()" in tokens(a[1]) and a[2][0] == "named" and a[2][1].endswith("ITERATION_COUNT") and \
-            a[3][0] == "call" and a[3][1].endswith("from_elem") and show(a[3][2][1]) in ("Add(Mul(2, AesMode::key_length(self.aes_mode)), PWD_VERIFY_LENGTH)",)
+        good = good and a[0] == ("arg", 2, "password") and "salt_length()" in tokens(a[1]) and a[2][0] == "const" and a[2][2] == 1000 and \
+            a[3][0] == "call" and a[3][1].endswith("from_elem") and show(a[3][2][1]) in ("Add(Mul(2, AesMode::key_length(self.aes_mode)), 2)", "Add(Mul(AesMode::key_length(self.aes_mode), 2), 2)")
     ok &= rep.check(good, rule, "pbkdf2", where(va, va.span), "PBKDF2-HMAC-SHA1(password, salt, 1000) deriving 2*key + 2 bytes",
                     "key derivation changed: %s" % ([show(x)[:60] for x in a] if pb else "no pbkdf2 call"))
     # slices: [0..k] cipher key, [k..2k] MAC key, [len-2..] verifier
@@ -67,8 +67,8 @@ def const_rules(facts, rep):
         r1, r2, r3 = rng(ck), rng(hk), rng(vr)
         good = show(r1.get("start", ("x",))) == "0" and show(r1.get("end", ("x",))) == "AesMode::key_length(self.aes_mode)" and \
             show(r2.get("start", ("x",))) == "AesMode::key_length(self.aes_mode)" and show(r2.get("end", ("x",))) in ("Mul(AesMode::key_length(self.aes_mode), 2)", "Mul(2, AesMode::key_length(self.aes_mode))") and \
-            "end" not in r3 and show(r3.get("start", ("x",))).startswith("Sub(Add(Mul(2, AesMode::key_length(self.aes_mode)), PWD_VERIFY_LENGTH), 2)") and \
-            show(v0) == "vec::from_elem(0, PWD_VERIFY_LENGTH)"
+            "end" not in r3 and show(r3.get("start", ("x",))).startswith("Sub(Add(Mul(2, AesMode::key_length(self.aes_mode)), 2), 2)") and \
+            show(v0) == "vec::from_elem(0, 2)"
     ok &= rep.check(good, rule, "key-layout", where(va, va.span), "derived = cipher key [0..k] | MAC key [k..2k] | 2-byte verifier; verifier compared with the 2 bytes read after the salt",
                     "derived key material is split differently")
     # mode <-> cipher type pairing
@@ -90,7 +90,7 @@ def const_rules(facts, rep):
     for bi, si, s, fl in aggregates(nw, r"aes_ctr::AesCtrZipKeyStream$"):
         c = norm(exn.operand(fl["counter"], (bi, si)))
         p = norm(exn.operand(fl["pos"], (bi, si)))
-        good = c == ("const", "u128", 1) and p[0] == "named" and p[2] == 16
+        good = c == ("const", "u128", 1) and p[0] == "const" and p[2] == 16
         ok &= rep.check(good, rule, "ctr-init", where(nw, s["span"]), "counter = 1, keystream buffer empty (pos = 16)", "CTR stream starts with counter=%s pos=%s" % (show(c), show(p)))
     ci = facts.method(r"^aes_ctr::AesCtrZipKeyStream<", "crypt_in_place", r"aes_ctr::AesCipher")
     w = calls_matching(ci, r"WriteBytesExt::write_u128$")
@@ -122,7 +122,7 @@ def mac_rules(facts, rep):
         a0 = norm(ex.operand(ct[0][1]["args"][0], (ct[0][0], None)))
         a1 = norm(ex.operand(ct[0][1]["args"][1], (ct[0][0], None)))
         r = dict(a0[2][1][3]) if a0[0] == "call" and a0[1].endswith("Index::index") and a0[2][1][0] == "agg" else {}
-        good = "finalize_reset()" in tokens(a0) and ".hmac" in tokens(a0) and show(r.get("start", ("x",))) == "0" and r.get("end", ("",))[0] == "named" and r["end"][2] == 10 and \
+        good = "finalize_reset()" in tokens(a0) and ".hmac" in tokens(a0) and show(r.get("start", ("x",))) == "0" and r.get("end", ("",))[0] == "const" and r["end"][2] == 10 and \
             a1[0] == "repeat" and str(a1[2]).startswith("10")
         rx = calls_matching(f, r"io::Read::read_exact$")
         good = good and len(rx) == 1 and f.dominates(rx[0][0], ct[0][0])
@@ -166,7 +166,7 @@ def ctr_rules(facts, rep):
     good = len(enc) == 1
     for b, t in enc:
         fs = dominating_facts(f, ex, b)
-        g = any(x[0] == "Eq" and x[1][0] in ("field", "phi") and "pos" in show(x[1]) and x[2][0] == "named" and x[2][2] == 16 for x in fs)
+        g = any(x[0] == "Eq" and x[1][0] in ("field", "phi") and "pos" in show(x[1]) and x[2][0] == "const" and x[2][2] == 16 for x in fs)
         good = good and g
     ok &= rep.check(good, rule, "refill-iff-block-exhausted", where(f, f.span), "a new keystream block is generated only when the previous one is used up (pos == 16)",
                     "keystream blocks are generated on a path not guarded by pos == 16: leftover keystream of the previous call is discarded and the stream desynchronises")
@@ -245,7 +245,7 @@ def open_rules(facts, rep):
         a0 = norm(exn.operand(cs[0][1]["args"][0], (cs[0][0], None)))
         a1 = norm(exn.operand(cs[0][1]["args"][1], (cs[0][0], None)))
         t = tokens(a1)
-        good = a0 == ("arg", 3, "compressed_size") and {"PWD_VERIFY_LENGTH", "AUTH_CODE_LENGTH", "salt_length()"} <= t
+        good = a0 == ("arg", 3, "compressed_size") and {"2", "10", "salt_length()"} <= t
     ok &= rep.check(good, rule, "data-length", where(nw, nw.span), "data length = compressed size - (salt + 2 + 10), checked", "AES data length is not compressed_size.checked_sub(salt + verifier + MAC)")
     rep.floor(rule, 6)
     return ok
